@@ -1,290 +1,3 @@
-import CoolerModel.Model.Index
-import CoolerModel.Props.CSRLemmas
-/-!
-# C02 — every written collection is a structurally valid CSR collection
-
-Statements about `Model/Index.lean`: the chunked run-length encoder equals the unchunked one for
-every block size, the offsets built from the runs are exactly the run-length index, and the store
-`create()` writes from a validated chunk stream satisfies the schema predicate `ValidCooler`.
--/
-set_option linter.unusedSimpArgs false
-set_option linter.unusedVariables false
-
-namespace Cooler.C02
-open Cooler
-
-/-! ## run-length encoding: block size does not matter -/
-
-theorem lastOr_nil (last : Option Nat) : lastOr last [] = last := rfl
-
-theorem lastOr_cons (last : Option Nat) (x : Nat) (rest : List Nat) :
-    lastOr last (x :: rest) = lastOr (some x) rest := by
-  unfold lastOr
-  cases rest with
-  | nil => simp
-  | cons y ys =>
-    rw [List.getLast?_cons_cons]
-    cases h : (y :: ys).getLast? with
-    | none => simp at h
-    | some v => rfl
-
-/-- the encoder is compositional: encoding `a ++ b` is encoding `a`, then `b` with the last value of
-`a` carried over -/
-theorem runStartsFrom_append (a b : List Nat) :
-    ∀ (prev : Option Nat) (pos : Nat),
-      runStartsFrom prev pos (a ++ b)
-        = runStartsFrom prev pos a ++ runStartsFrom (lastOr prev a) (pos + a.length) b := by
-  induction a with
-  | nil => intro prev pos; simp [runStartsFrom, lastOr_nil]
-  | cons x rest ih =>
-    intro prev pos
-    simp only [List.cons_append, runStartsFrom, ih (some x) (pos + 1), lastOr_cons, List.length_cons,
-      List.append_assoc]
-    congr 3
-    omega
-
-theorem rleBlocks_eq (c : Nat) (hc : 1 ≤ c) :
-    ∀ (fuel : Nat) (last : Option Nat) (pos : Nat) (xs : List Nat), xs.length ≤ fuel →
-      rleBlocks c fuel last pos xs = runStartsFrom last pos xs := by
-  intro fuel
-  induction fuel with
-  | zero =>
-    intro last pos xs h
-    have : xs = [] := List.length_eq_zero_iff.mp (by omega)
-    subst this
-    simp [rleBlocks, runStartsFrom]
-  | succ fuel ih =>
-    intro last pos xs h
-    unfold rleBlocks
-    split
-    · rename_i hnil; subst hnil; simp [runStartsFrom]
-    · rename_i hne
-      have hlen : 0 < xs.length := List.length_pos_iff.mpr hne
-      simp only
-      rw [ih _ _ _ (by simp only [List.length_drop]; omega)]
-      conv => rhs; rw [← List.take_append_drop c xs]
-      rw [runStartsFrom_append]
-
-/-- **rlencodeChunked_eq**: for every block size `c ≥ 1` (boundary inside a run, on a run boundary,
-`c = 1`, `c > |xs|`) the chunked encoder returns the runs of the unchunked one. -/
-theorem rlencodeChunked_eq (c : Nat) (hc : 1 ≤ c) (xs : List Nat) :
-    rlencodeChunked c xs = rlencode xs :=
-  rleBlocks_eq c hc xs.length none 0 xs (Nat.le_refl _)
-
-/-! ## offsets from runs = run-length index -/
-
-def NonDecr (xs : List Nat) : Prop := xs.Pairwise (· ≤ ·)
-
-/-- invariant of the fill loop, element by element: with `curr` one past the previous value (0 at the
-start), the entries written from `curr` on are `pos + #(suffix elements < k)` -/
-theorem fillIdx_spec (n : Nat) :
-    ∀ (suf : List Nat) (prev : Option Nat) (pos curr : Nat),
-      NonDecr suf → (∀ x ∈ suf, x < n) →
-      (match prev with | some p => curr = p + 1 ∧ ∀ x ∈ suf, p ≤ x | none => curr = 0) →
-      fillIdx n (pos + suf.length) curr (runStartsFrom prev pos suf)
-        = (List.range' curr (n + 1 - curr)).map fun k => pos + suf.countP (· < k) := by
-  intro suf
-  induction suf with
-  | nil =>
-    intro prev pos curr _ _ _
-    simp [runStartsFrom, fillIdx, List.map_const']
-  | cons x rest ih =>
-    intro prev pos curr hs hn hp
-    have hs' : NonDecr rest := (List.pairwise_cons.mp hs).2
-    have hx : ∀ y ∈ rest, x ≤ y := (List.pairwise_cons.mp hs).1
-    have hxn : x < n := hn x (by simp)
-    have hn' : ∀ y ∈ rest, y < n := fun y hy => hn y (List.mem_cons_of_mem _ hy)
-    have ih' := ih (some x) (pos + 1) (x + 1) hs' hn' ⟨rfl, hx⟩
-    have hlen : pos + (x :: rest).length = pos + 1 + rest.length := by simp; omega
-    rw [hlen]
-    -- entries from x+1 on: the same in both readings
-    have htail : (List.range' (x + 1) (n + 1 - (x + 1))).map (fun k => pos + 1 + rest.countP (· < k))
-        = (List.range' (x + 1) (n + 1 - (x + 1))).map (fun k => pos + (x :: rest).countP (· < k)) := by
-      apply List.map_congr_left
-      intro k hk
-      have : x < k := by
-        have := (List.mem_range'_1.mp hk).1; omega
-      simp [List.countP_cons, this]; omega
-    by_cases hsame : prev = some x
-    · -- same run continues: curr = x + 1
-      subst hsame
-      simp only at hp
-      obtain ⟨hc, _⟩ := hp
-      subst hc
-      simp only [runStartsFrom, if_true, List.nil_append]
-      rw [ih', htail]
-    · -- a new run starts at `pos` with value `x`; curr ≤ x
-      have hcx : curr ≤ x := by
-        cases prev with
-        | none => simp only at hp; omega
-        | some p =>
-          simp only at hp
-          obtain ⟨hc, hge⟩ := hp
-          have := hge x (by simp)
-          have : p ≠ x := fun h => hsame (by rw [h])
-          omega
-      simp only [runStartsFrom, hsame, if_false, List.singleton_append, fillIdx]
-      rw [ih', htail]
-      have hsplit : List.range' curr (n + 1 - curr)
-          = List.range' curr (x + 1 - curr) ++ List.range' (x + 1) (n + 1 - (x + 1)) := by
-        have h1 : n + 1 - curr = (x + 1 - curr) + (n + 1 - (x + 1)) := by omega
-        rw [h1, ← List.range'_append]
-        simp only [Nat.one_mul]
-        have : curr + (x + 1 - curr) = x + 1 := by omega
-        rw [this]
-      rw [hsplit, List.map_append]
-      congr 1
-      -- the entries curr..x all equal `pos`: nothing of the suffix is below them
-      have : ∀ k ∈ List.range' curr (x + 1 - curr), pos + (x :: rest).countP (· < k) = pos := by
-        intro k hk
-        have hk' := (List.mem_range'_1.mp hk)
-        have hz : (x :: rest).countP (· < k) = 0 := by
-          rw [List.countP_eq_zero]
-          intro y hy
-          simp only [List.mem_cons] at hy
-          simp only [decide_eq_true_eq, Nat.not_lt]
-          rcases hy with rfl | hy
-          · omega
-          · have := hx y hy; omega
-        omega
-      rw [List.map_congr_left this]
-      simp [List.map_const']
-
-/-- **indexPixels_spec**: for a non-decreasing column with values `< n`, the offsets built from its
-run-length encoding are exactly `k ↦ #(elements < k)` for `k = 0..n`. -/
-theorem indexFromRle_spec (n : Nat) (xs : List Nat) (hs : NonDecr xs) (hn : ∀ x ∈ xs, x < n) :
-    indexFromRle n xs.length (rlencode xs) = countIndex n xs := by
-  unfold indexFromRle rlencode countIndex
-  have := fillIdx_spec n xs none 0 0 hs hn rfl
-  simp only [Nat.zero_add, Nat.sub_zero] at this
-  rw [this, List.range_eq_range']
-
-theorem indexPixels_spec (n : Nat) (bin1 : List Nat) (hs : NonDecr bin1) (hn : ∀ x ∈ bin1, x < n) :
-    indexPixels n bin1 = countIndex n bin1 := indexFromRle_spec n bin1 hs hn
-
-/-- with the chunked encoder the code actually calls (`rlencode(bin1, 1000000)`), for every block size -/
-theorem indexPixels_chunked_spec (c : Nat) (hc : 1 ≤ c) (n : Nat) (bin1 : List Nat) (hs : NonDecr bin1)
-    (hn : ∀ x ∈ bin1, x < n) :
-    indexFromRle n bin1.length (rlencodeChunked c bin1) = countIndex n bin1 := by
-  rw [rlencodeChunked_eq c hc]; exact indexFromRle_spec n bin1 hs hn
-
-theorem countIndex_eq_csrIndex (ps : Pixels) (n : Nat) :
-    countIndex n (ps.map Px.i) = csrIndex ps n := by
-  unfold countIndex csrIndex off
-  apply List.map_congr_left
-  intro k _
-  rw [List.countP_map]
-  rfl
-
-/-! ## write_pixels -/
-
-theorem foldl_add_append (a b : List Int) (z : Int) :
-    (a ++ b).foldl (· + ·) z = a.foldl (· + ·) z + b.foldl (· + ·) 0 := by
-  induction b generalizing a z with
-  | nil => simp
-  | cons x rest ih =>
-    have := ih (a ++ [x]) z
-    simp only [List.append_assoc, List.singleton_append] at this
-    rw [this]
-    simp only [List.foldl_append, List.foldl_cons, List.foldl_nil]
-    have h2 := ih [x] 0
-    simp only [List.singleton_append, List.foldl_cons, List.foldl_nil] at h2
-    rw [h2]
-    omega
-
-/-- **writePixels_concat**: for every chunk list (any sizes, empty chunks included) the stored table
-is the concatenation, `nnz` its length and the running total the sum of the value column. -/
-theorem writePixels_concat (chunks : List Pixels) :
-    writePixels chunks = (chunks.flatten, chunks.flatten.length, (chunks.flatten.map Px.v).foldl (· + ·) 0) := by
-  unfold writePixels
-  suffices h : ∀ (acc : Pixels) (k : Nat) (t : Int),
-      chunks.foldl (fun (acc : Pixels × Nat × Int) ch =>
-        (acc.1 ++ ch, acc.2.1 + ch.length, acc.2.2 + (ch.map Px.v).foldl (· + ·) 0)) (acc, k, t)
-      = (acc ++ chunks.flatten, k + chunks.flatten.length,
-          t + (chunks.flatten.map Px.v).foldl (· + ·) 0) by
-    have := h [] 0 0
-    simpa using this
-  induction chunks with
-  | nil => intro acc k t; simp
-  | cons ch rest ih =>
-    intro acc k t
-    simp only [List.foldl_cons, ih, List.flatten_cons, List.append_assoc, List.length_append,
-      List.map_append]
-    rw [foldl_add_append]
-    refine Prod.ext rfl (Prod.ext ?_ ?_) <;> simp <;> omega
-
-/-! ## create() writes a valid collection -/
-
-theorem strictSortedB_iff (ps : Pixels) : strictSortedB ps = true ↔ StrictSorted ps := by
-  unfold StrictSorted
-  induction ps with
-  | nil => simp [strictSortedB]
-  | cons p rest ih =>
-    cases rest with
-    | nil => simp [strictSortedB]
-    | cons q rest' =>
-      simp only [strictSortedB, Bool.and_eq_true, keyLtB, decide_eq_true_eq, ih]
-      constructor
-      · rintro ⟨h1, h2⟩
-        rw [List.pairwise_cons]
-        refine ⟨?_, h2⟩
-        intro r hr
-        rcases List.mem_cons.mp hr with rfl | hr
-        · exact h1
-        · have := (List.pairwise_cons.mp h2).1 r hr
-          unfold keyLt at *
-          omega
-      · intro h
-        exact ⟨(List.pairwise_cons.mp h).1 q (by simp), (List.pairwise_cons.mp h).2⟩
-
-/-- **create_valid**: a chunk stream whose concatenation is strictly sorted, in range and (in
-symmetric-upper mode) upper triangular — which is what the chained validator establishes — over a
-bin table whose chromosome codes are non-decreasing and `< nchroms`, yields a store satisfying every
-clause of the schema. -/
-theorem create_valid (nchroms : Nat) (binChrom : List Nat) (symm : Bool) (chunks : List Pixels)
-    (hbs : NonDecr binChrom) (hbn : ∀ c ∈ binChrom, c < nchroms)
-    (hs : StrictSorted chunks.flatten) (hr : InRange binChrom.length chunks.flatten)
-    (ht : symm = true → Triu chunks.flatten) :
-    ValidCooler (createStore nchroms binChrom symm chunks) := by
-  unfold ValidCooler schemaViolations createStore
-  simp only [writePixels_concat]
-  have h1 : strictSortedB chunks.flatten = true := (strictSortedB_iff _).mpr hs
-  have h2 : inRangeB binChrom.length chunks.flatten = true := by
-    unfold inRangeB
-    simp only [List.all_eq_true, Bool.and_eq_true, decide_eq_true_eq]
-    exact hr
-  have h3 : (!symm || triuB chunks.flatten) = true := by
-    cases symm with
-    | false => simp
-    | true =>
-      simp only [Bool.not_true, Bool.false_or]
-      unfold triuB
-      simp only [List.all_eq_true, decide_eq_true_eq]
-      exact ht rfl
-  have hrow : NonDecr (chunks.flatten.map Px.i) := by
-    unfold NonDecr
-    rw [List.pairwise_map]
-    exact hs.imp (fun {a b} hab => by unfold keyLt at hab; omega)
-  have hrown : ∀ x ∈ chunks.flatten.map Px.i, x < binChrom.length := by
-    intro x hx
-    obtain ⟨p, hp, rfl⟩ := List.mem_map.mp hx
-    exact (hr p hp).1
-  have h4 : indexPixels binChrom.length (chunks.flatten.map Px.i)
-      = countIndex binChrom.length (chunks.flatten.map Px.i) :=
-    indexPixels_spec _ _ hrow hrown
-  have h5 : indexBins nchroms binChrom = countIndex nchroms binChrom :=
-    indexFromRle_spec nchroms binChrom hbs hbn
-  rw [List.map_flatten] at h4
-  simp [h1, h2, h3, h4, h5]
-
-/-- non-vacuity: a concrete two-chunk stream (with an empty chunk) meets the hypotheses -/
-example : ValidCooler (createStore 2 [0, 0, 1] true [[⟨0, 0, 3⟩, ⟨0, 2, 1⟩], [], [⟨1, 1, 4⟩]]) := by decide
-
-/-- the zero-chunk stream (repaired behaviour, fix D14): columns of length 0 = nnz -/
-theorem create_zero_chunks (nchroms : Nat) (binChrom : List Nat) (symm : Bool)
-    (hbs : NonDecr binChrom) (hbn : ∀ c ∈ binChrom, c < nchroms) :
-    ValidCooler (createStore nchroms binChrom symm []) :=
-  create_valid nchroms binChrom symm [] hbs hbn (by simp [StrictSorted]) (by simp [InRange])
-    (by intro _; simp [Triu])
-
-end Cooler.C02
+-- C02 — property theorems: index builder and create (C02Core), merge / unordered producers (C02Producers)
+import CoolerModel.Props.C02Core
+import CoolerModel.Props.C02Producers
